@@ -74,7 +74,9 @@ func genC19(x *Ctx) *c19Scen {
 	shapes := []struct{ m, p string }{
 		{"GET", "/u/%s"}, {"GET", "/u/%s/sub/k%s"}, {"POST", "/u/%s"}, {"GET", "/v/t%s/items/%s"}, {"PUT", "/u/%s"},
 		{"GET", "/nowhere/%s"}, {"GET", "/u/doc/%s.json"}, {"GET", "/u/num/x%sy"}, {"UNLOCK", "/many/%s"}, {"COPY", "/many/%s"}, {"OPTIONS", "/u/%s"}, {"OPTIONS", "/v/t%s/items/%s"}, {"DELETE", "/v/t%s/items/%s"},
-		{"GET", "/s/plain"}, {"GET", "/s/other"}, {"GET", "/s/stream"}, {"GET", "/s/raw"}, {"POST", "/x/form/%s"}, {"POST", "/x/nct/%s"}, {"GET", "/x/err/%s"}, {"POST", "/x/job/%s:cancel"}, {"GET", "/x/job/%s:cancel"}, {"GET", "/x/job/%s"},
+		{"GET", "/s/plain"}, {"GET", "/s/other"}, {"GET", "/s/stream"}, {"GET", "/s/raw"},
+		// URL forms a real client can send: an escaped slash inside a segment, an empty segment, a trailing slash, HEAD
+		{"GET", "/u/%s%%2Fsub/k%s"}, {"GET", "/u//%s"}, {"GET", "/u/%s/"}, {"HEAD", "/u/%s"}, {"HEAD", "/many/%s"}, {"POST", "/x/form/%s"}, {"POST", "/x/nct/%s"}, {"GET", "/x/err/%s"}, {"POST", "/x/job/%s:cancel"}, {"GET", "/x/job/%s:cancel"}, {"GET", "/x/job/%s"},
 	}
 	tp.Repeat(2, maxSpecs, 650, func(i int) {
 		sh := shapes[tp.G(len(shapes))]
